@@ -67,7 +67,7 @@ def analyse(ctx, cfg, res, what="canvas -d"):
     has_end = any(r["name"] == "end" for r in res["rows"])
     if has_end and running:
         ctx.violation("%s: end was recorded and the invocation returned while %s had not finished" % (what, sorted(running)), info)
-    if ok != (res["rc"] == 0) or ok != has_end:
+    if (not res.get("detached") and ok != (res["rc"] == 0)) or ok != has_end:
         ctx.violation("%s: exit status %s / end recorded %s, but all synchronous steps %s" % (what, res["rc"], has_end, "succeeded" if ok else "did not succeed"), info)
     return ids, par, ok, started
 
@@ -100,7 +100,10 @@ def run(ctx):
     for t in range(n):
         adv = [None, "long-parallel", "all-at-once", "trailing-parallel", None][t % 5]
         cfg = gen_config(rng, adv)
-        res = cr.run(cfg)
+        # every third configuration runs detached (canvas without -d): the launcher's exit status says nothing then
+        detach = (t % 3 == 2)
+        res = cr.run(cfg, detach=detach)
+        res["detached"] = detach
         ids, par, ok, started = analyse(ctx, cfg, res)
         skipidx = [ids[s] for s in cfg["skip"]]
         reqs.append("orchp accepts %d %s %s" % (cfg["ncpu"], ",".join(map(str, skipidx)) or "-", ",".join(to_trace(cfg, res, ids, par)) or "."))
@@ -109,7 +112,7 @@ def run(ctx):
         steps = ",".join("%d:%d:0" % (ids[s[0]], 1 if s[1] else 0) for s in cfg["steps"]) + ",%d:0:1" % (len(cfg["steps"]) + 1)
         exits = ",".join(["0"] + [str(s[3]) for s in cfg["steps"]] + ["0"])
         reqs.append("orchp result %d %s %s %s" % (cfg["ncpu"], ",".join(map(str, skipidx)) or "-", exits, steps))
-        wants.append("%s %s %s" % ("ok" if res["rc"] == 0 else "fail", "end" if any(r["name"] == "end" for r in res["rows"]) else "noend",
+        wants.append("%s %s %s" % ("ok" if (ok if detach else res["rc"] == 0) else "fail", "end" if any(r["name"] == "end" for r in res["rows"]) else "noend",
                                    ",".join(str(x) for x in sorted(ids[s] for s in started))))
         infos.append(dict(cfg=cfg, rc=res["rc"]))
         kinds[adv or "random"] = kinds.get(adv or "random", 0) + 1
